@@ -11,7 +11,10 @@
      - begin/begin_nested/execute autobegin a root frame; they raise on a closed connection, and
        inside a with-block whose transaction has already ended (the documented
        "Can't operate on closed transaction inside context manager" rule),
-     - leaving a with-block commits (normal exit) or rolls back (exception) a still-live handle. *)
+     - leaving a with-block commits (normal exit) or rolls back (exception) a still-live handle,
+     - faults: a raising `begin` listener means the root frame is not opened and the operation
+       raises (the next operation autobegins normally); a DBAPI rollback that reports an error still
+       ends the transaction and undoes its work, and the operation raises. *)
 From Coq Require Import List ZArith NArith Bool Arith.
 Import ListNotations.
 From SAV.engine Require Import RefDb Txn.
@@ -22,10 +25,12 @@ Record spec : Type := mkP {
   p_stack : list (nat * tables);   (* live frames, innermost first: (handle, data when opened) *)
   p_kinds : list bool;             (* for every handle created so far: is it a root handle *)
   p_ctx : list nat;                (* handles of the with-blocks currently entered, innermost first *)
-  p_closed : bool
+  p_closed : bool;
+  p_beginfail : N;                 (* environment: raising `begin` listener (0 none, 1 once, 2.. always) *)
+  p_rbfail : bool                  (* environment: the next DBAPI rollback reports an error *)
 }.
 
-Definition spec_init (ts : tables) : spec := mkP ts ts [] [] [] false.
+Definition spec_init (ts : tables) : spec := mkP ts ts [] [] [] false 0%N false.
 
 Definition p_next (p : spec) : nat := length (p_kinds p).
 Definition live (k : nat) (p : spec) : bool := existsb (fun f => Nat.eqb (fst f) k) (p_stack p).
@@ -46,57 +51,86 @@ Fixpoint snap_of (k : nat) (l : list (nat * tables)) (dflt : tables) : tables :=
   | (j, snap) :: r => if Nat.eqb j k then snap else snap_of k r dflt
   end.
 
-Definition set_stack st cur p := mkP (p_committed p) cur st (p_kinds p) (p_ctx p) (p_closed p).
+Definition set_stack st cur p :=
+  mkP (p_committed p) cur st (p_kinds p) (p_ctx p) (p_closed p) (p_beginfail p) (p_rbfail p).
+Definition set_pctx c p :=
+  mkP (p_committed p) (p_cur p) (p_stack p) (p_kinds p) c (p_closed p) (p_beginfail p) (p_rbfail p).
+Definition set_pclosed b p :=
+  mkP (p_committed p) (p_cur p) (p_stack p) (p_kinds p) (p_ctx p) b (p_beginfail p) (p_rbfail p).
+Definition set_pbeginfail n p :=
+  mkP (p_committed p) (p_cur p) (p_stack p) (p_kinds p) (p_ctx p) (p_closed p) n (p_rbfail p).
+Definition set_prbfail b p :=
+  mkP (p_committed p) (p_cur p) (p_stack p) (p_kinds p) (p_ctx p) (p_closed p) (p_beginfail p) b.
 Definition open_frame (isroot : bool) (p : spec) : spec :=
-  mkP (p_committed p) (p_cur p) ((p_next p, p_cur p) :: p_stack p) (p_kinds p ++ [isroot]) (p_ctx p) (p_closed p).
-Definition autobegin_spec (p : spec) : spec :=
-  match p_stack p with [] => open_frame true p | _ => p end.
+  mkP (p_committed p) (p_cur p) ((p_next p, p_cur p) :: p_stack p) (p_kinds p ++ [isroot]) (p_ctx p)
+      (p_closed p) (p_beginfail p) (p_rbfail p).
 Definition commit_all (p : spec) : spec :=
-  mkP (p_cur p) (p_cur p) [] (p_kinds p) (p_ctx p) (p_closed p).
+  mkP (p_cur p) (p_cur p) [] (p_kinds p) (p_ctx p) (p_closed p) (p_beginfail p) (p_rbfail p).
+(* the outer rollback undoes all uncommitted work - also when the DBAPI reports an error for it
+   (the error is consumed and reported by the second component of [rollback_root]) *)
 Definition rollback_all (p : spec) : spec :=
-  mkP (p_committed p) (p_committed p) [] (p_kinds p) (p_ctx p) (p_closed p).
+  mkP (p_committed p) (p_committed p) [] (p_kinds p) (p_ctx p) (p_closed p) (p_beginfail p) false.
+
+(* opening the root frame runs the `begin` listeners: a raising listener means no transaction *)
+Definition begin_root (p : spec) : bool * spec :=
+  match p_beginfail p with
+  | 0%N => (false, open_frame true p)
+  | 1%N => (true, set_pbeginfail 0%N p)
+  | _ => (true, p)
+  end.
+Definition autobegin_spec (p : spec) : bool * spec :=
+  match p_stack p with [] => begin_root p | _ => (false, p) end.
 
 Definition commit_handle (k : nat) (p : spec) : spec :=
   match below k (p_stack p) with
   | [] => commit_all p                     (* k controls the root frame *)
   | fr => set_stack fr (p_cur p) p
   end.
-Definition rollback_handle (k : nat) (p : spec) : spec :=
+(* (raised, state): only the rollback of the root frame talks to the DBAPI rollback() *)
+Definition rollback_handle (k : nat) (p : spec) : bool * spec :=
   match below k (p_stack p) with
-  | [] => rollback_all p
-  | fr => set_stack fr (snap_of k (p_stack p) (p_cur p)) p
+  | [] => (p_rbfail p, rollback_all p)
+  | fr => (false, set_stack fr (snap_of k (p_stack p) (p_cur p)) p)
   end.
+Definition rollback_conn (p : spec) : bool * spec :=
+  match p_stack p with [] => (false, p) | _ => (p_rbfail p, rollback_all p) end.
 
 (* one step: (raised, new state); [None] = the operation names a handle that does not exist *)
 Definition sstep (o : op) (p : spec) : option (bool * spec) :=
   match o with
   | OBegin =>
-      Some (if blocked p || negb (Nat.eqb (length (p_stack p)) 0) then (true, p)
-            else (false, open_frame true p))
+      Some (if blocked p || negb (Nat.eqb (length (p_stack p)) 0) then (true, p) else begin_root p)
   | ONested =>
-      Some (if blocked p then (true, p) else (false, open_frame false (autobegin_spec p)))
+      Some (if blocked p then (true, p)
+            else match autobegin_spec p with
+                 | (false, q) => (false, open_frame false q)
+                 | r => r
+                 end)
   | OIns v =>
       Some (if blocked p then (true, p)
-            else let q := autobegin_spec p in
-                 (false, set_stack (p_stack q) (tbl_insert 0%N [v] (p_cur q)) q))
+            else match autobegin_spec p with
+                 | (false, q) => (false, set_stack (p_stack q) (tbl_insert 0%N [v] (p_cur q)) q)
+                 | r => r
+                 end)
   | OCommit => Some (false, match p_stack p with [] => p | _ => commit_all p end)
-  | ORollback => Some (false, match p_stack p with [] => p | _ => rollback_all p end)
+  | ORollback => Some (rollback_conn p)
   | OClose =>
-      let q := match p_stack p with [] => p | _ => rollback_all p end in
-      Some (false, mkP (p_committed q) (p_cur q) (p_stack q) (p_kinds q) (p_ctx q) true)
+      (* a failing rollback propagates out of close(): the connection stays open *)
+      Some (match rollback_conn p with (false, q) => (false, set_pclosed true q) | r => r end)
   | TCommit k =>
       if k <? p_next p then Some (if live k p then (false, commit_handle k p) else (true, p)) else None
   | TRollback k | TClose k =>
-      if k <? p_next p then Some (false, if live k p then rollback_handle k p else p) else None
+      if k <? p_next p then Some (if live k p then rollback_handle k p else (false, p)) else None
   | TEnter k =>
-      if k <? p_next p
-      then Some (false, mkP (p_committed p) (p_cur p) (p_stack p) (p_kinds p) (k :: p_ctx p) (p_closed p))
-      else None
+      if k <? p_next p then Some (false, set_pctx (k :: p_ctx p) p) else None
   | TExit k e =>
       if k <? p_next p then
-        let q := if live k p then (if e then rollback_handle k p else commit_handle k p) else p in
-        Some (false, mkP (p_committed q) (p_cur q) (p_stack q) (p_kinds q) (tl (p_ctx q)) (p_closed q))
+        let '(b, q) := if live k p then (if e then rollback_handle k p else (false, commit_handle k p))
+                       else (false, p) in
+        Some (b, set_pctx (tl (p_ctx q)) q)
       else None
+  | FBegin n => Some (false, set_pbeginfail n p)
+  | FRollback b => Some (false, set_prbfail b p)
   end.
 
 Definition sstep_st (o : op) (p : spec) : spec := match sstep o p with Some (_, q) => q | None => p end.
@@ -126,13 +160,21 @@ Definition ok_end (k : nat) (p : spec) : bool :=
 Definition ok_dead_root (k : nat) (p : spec) : bool :=
   live k p || negb (kind_root k p) || negb (spec_in_nested p).
 
+(* (e) the DBAPI rollback reports an error while a savepoint is live (the savepoint objects are then
+   not cancelled); [rb] = the operation rolls the root frame back *)
+Definition ok_rbfail (p : spec) : bool := negb (p_rbfail p) || negb (spec_in_nested p).
+Definition rolls_back_root (k : nat) (p : spec) : bool := live k p && is_root_frame k p.
+
 Definition gstep (o : op) (p : spec) : bool :=
   match o with
+  | ORollback | OClose => ok_rbfail p
   | TCommit k => ok_end k p
-  | TRollback k | TClose k => ok_end k p && ok_dead_root k p
+  | TRollback k | TClose k =>
+      ok_end k p && ok_dead_root k p && (negb (rolls_back_root k p) || ok_rbfail p)
   | TEnter k => negb (existsb (Nat.eqb k) (p_ctx p))
   | TExit k e =>
       match p_ctx p with j :: _ => Nat.eqb j k | [] => false end && ok_end k p && ok_dead_root k p
+      && (negb (e && rolls_back_root k p) || ok_rbfail p)
   | _ => true
   end.
 
